@@ -48,7 +48,7 @@ def showRoute (r : Route) : String :=
 def dump (p : Peer) : String :=
   s!"est={b2s p.est} pr={b2s p.peerRestarting} lr={b2s p.localRestarting} llrun={b2s p.llRun} " ++
   s!"en={b2s p.enabled} nb={b2s p.notif} ll={b2s p.longLived} rt={p.restartTime} adv={b2s (needToAdvertise p)} | " ++
-  " ".intercalate (p.fams.map showFam) ++ " | " ++
+  " ".intercalate (p.fams.map showFam) ++ " | neg=[" ++ " ".intercalate (p.negotiated.map toString) ++ "] | " ++
   " ".intercalate ((sortRoutes p.rib).map showRoute)
 
 def step (s : St) (ts : List String) : St × List String :=
@@ -60,8 +60,10 @@ def step (s : St) (ts : List String) : St × List String :=
     let (tuples, rest1) := takeList rest
     match rest1 with
     | llgr :: nl :: rest2 =>
+      let (mp, rest3) := takeList (rest2.drop (2 * nat! nl))
+      let (noFwd, _) := takeList rest3
       let c : Caps := { gr := b! gr, nbit := b! nb, rbit := b! rb, time := nat! tm, tuples := tuples,
-                        llgr := b! llgr, ltuples := parsePairs (nat! nl) rest2 }
+                        llgr := b! llgr, ltuples := parsePairs (nat! nl) rest2, mp := mp, noFwd := noFwd }
       ({ s with p := GR.step s.p (.est c) }, [])
     | _ => (s, ["bad-op"])
   | ["loss", k, c, sc] =>
